@@ -363,4 +363,9 @@ mod tests {
         assert_eq!(batch, None);
         assert_eq!(range_to_fetch, Some(1..=5));
     }
+
+    #[cfg(lumina_verif)]
+    mod verif_native {
+        include!(concat!(env!("LUMINA_VERIF_DIR"), "/native/node/session.rs"));
+    }
 }
